@@ -81,7 +81,7 @@ theorem pippi_lt (net : Net) (strip : Bool) (px : Nat × Nat) (h : px ∈ (tabsO
   have hlt : p < net.sNodes.length := by
     rcases hp with hp | hp
     · have := ((mem_piS net p).1 hp).1; omega
-    · exact ((mem_ppioS net p).1 hp).2
+    · exact ((mem_ppiUsedS net p).1 hp).1.2
   simp only [Net.idx]
   omega
 
